@@ -327,6 +327,9 @@ def run_slot_case(env, rec, case):
     else:
         content = env.Slot(content_func=lambda ctx, data, ref: env.mark_safe(text))
     try:
+        if case.get("prior"):
+            env.Outer2.render(slots={"s": content}, escape_slots_content=not flag, render_dependencies=False)
+            env.Inner.render(slots={"s": content}, escape_slots_content=not flag, render_dependencies=False)
         if shape == "direct":
             out = env.Inner.render(slots={"s": content}, escape_slots_content=flag, render_dependencies=False)
         elif shape == "repass-python":
@@ -450,6 +453,13 @@ def run_shard(spec, rec):
                         case = {"kind": "slot", "form": form, "flag": flag, "shape": shape, "tok": f"t{k}"}
                         rec.case(("slot", form, flag, shape, rep), nontrivial=True)
                         run_slot_case(env, rec, case)
+                        if form.startswith("slot-"):
+                            # history: the SAME Slot object was handed to an earlier render with the opposite flag (and to
+                            # another component): each render escapes according to its own flag
+                            k += 1
+                            case = {"kind": "slot", "form": form, "flag": flag, "shape": shape, "tok": f"t{k}", "prior": "same-slot-object-rendered-with-the-opposite-flag"}
+                            rec.case(("slot", form, flag, shape, rep, "prior"), nontrivial=True)
+                            run_slot_case(env, rec, case)
                         if rep == 0 and rec.want_sample() and k % 7 == 0:
                             rec.sample(case)
         rec.exhaustive = False
